@@ -19,7 +19,8 @@ LEAVES = {
     ('MAX_HOLES_OKTA8',): lambda r: r.choice([0, 1, 2, 4, 8, 15]),
     ('BASE_LVL_HEIGHT_PERC',): lambda r: r.choice([0, 1, 5, 10, 25, 50, 12.5]),
     ('BASE_LVL_LOOKBACK_PERC',): lambda r: r.choice([100, 80, 50, 33, 20]),
-    ('EXCLUDE_FOR_BASE_HEIGHT_CALC',): lambda r: r.choice([[], ['C0'], ['C1'], ['C0', 'C2']]),
+    ('EXCLUDE_FOR_BASE_HEIGHT_CALC',): lambda r: r.choice([[], ['C0'], ['C1'], ['C0', 'C2'],
+                                                           ['C2', 'C0'], ['C3', 'C1', 'C0']]),
     ('LOWESS', 'frac'): lambda r: r.choice([0.1, 0.2, 0.35, 0.5, 0.8, 1.0]),
     ('LOWESS', 'it'): lambda r: r.choice([1, 2, 3, 5]),
     ('MIN_SEP_VALS',): lambda r: r.choice([[250, 1000], [100, 1000], [400, 1000], [10, 10],
@@ -33,7 +34,8 @@ LEAVES = {
     ('GROUPING_PRMS', 'height_pad_perc'): lambda r: r.choice([10, 0, -10, 20, 30, 40]),
     ('GROUPING_PRMS', 'dt_scale'): lambda r: r.choice([180, 30, 60, 600, 2000]),
     ('GROUPING_PRMS', 'height_scale_range'):
-        lambda r: r.choice([[100, 500], [20, 60], [50, 200], [300, 900], [10, 2000]]),
+        lambda r: r.choice([[100, 500], [20, 60], [50, 200], [300, 900], [10, 2000],
+                            [500, 100], [60, 20], [900, 300]]),   # only min()/max() are used
     ('LAYERING_PRMS', 'min_okta_to_split'): lambda r: r.choice([2, 0, 1, 4, 6, 8]),
     ('LAYERING_PRMS', 'gmm_kwargs', 'scores'): lambda r: r.choice(['BIC', 'AIC']),
     ('LAYERING_PRMS', 'gmm_kwargs', 'mode'): lambda r: r.choice(['delta', 'prob']),
@@ -43,6 +45,8 @@ LEAVES = {
     ('LAYERING_PRMS', 'gmm_kwargs', 'rescale_0_to_x'):
         lambda r: r.choice([100, None, 10, 1000, 37.5, 1, 0.1, 0.01]),
 }
+LIST_LEAVES = [('GROUPING_PRMS', 'height_scale_range'), ('MIN_SEP_VALS',), ('MIN_SEP_LIMS',),
+               ('EXCLUDE_FOR_BASE_HEIGHT_CALC',)]
 PROCESSING_LEAVES = [p for p in LEAVES if p not in (('MPL_STYLE',),
                                                     ('SLICING_PRMS', 'height_scale_mode'))]
 
